@@ -4,6 +4,7 @@ import (
 	"bytes"
 	"context"
 	"fmt"
+	"github.com/pkg/errors"
 	"io"
 	"runtime/debug"
 
@@ -68,11 +69,11 @@ type DiffSeams struct {
 
 // DiffResult is what a diff run produced.
 type DiffResult struct {
-	Patch, Sig  []byte
+	Patch, Sig    []byte
 	Fresh, Reused int64
-	Err         error
-	Panic       string
-	SourcePool  *Pool
+	Err           error
+	Panic         string
+	SourcePool    *Pool
 }
 
 // Recover runs f and converts a panic into a string (value + stack).
@@ -146,28 +147,37 @@ func NewSource(data []byte, slice *Slicer, yield func(string)) (savior.SeekSourc
 
 // ApplyOpts configures a patch application.
 type ApplyOpts struct {
-	PatchSlice *Slicer
-	PoolSlice  *Slicer // only where every consumer tolerates short reads (rsync series, fresh bowl)
-	Yield      func(string)
-	Whitelist  map[int64]bool
-	Save       patcher.SaveConsumer
-	WrapPool   func(lake.Pool, *tlc.Container) lake.Pool // e.g. safekeeper
-	WrapBowl   func(bowl.Bowl) bowl.Bowl
+	PatchSlice   *Slicer
+	PoolSlice    *Slicer // only where every consumer tolerates short reads (rsync series, fresh bowl)
+	Yield        func(string)
+	Whitelist    map[int64]bool
+	Save         patcher.SaveConsumer
+	WrapPool     func(lake.Pool, *tlc.Container) lake.Pool // e.g. safekeeper
+	WrapBowl     func(bowl.Bowl) bowl.Bowl
 	BeforeCommit func() string // invariant evaluated right before Commit; non-empty = violation
-	Checkpoint *patcher.Checkpoint
-	NoCommit   bool
-	Consumer   *state.Consumer
-	OnPool     func(p *Pool) // configure the simulated target pool (recording, OnRead hooks)
+	Checkpoint   *patcher.Checkpoint
+	NoCommit     bool
+	Consumer     *state.Consumer
+	OnPool       func(p *Pool) // configure the simulated target pool (recording, OnRead hooks)
+	// FirstAttemptCut > 0: before the real application, a first patcher runs over the patch cut
+	// short at that length with the same pool and the same bowl object, and fails (end of stream)
+	FirstAttemptCut int
+	// OnStop is called when Resume returns ErrStop; a non-nil checkpoint makes the same patcher
+	// resume from it with the same pool and bowl (the way the suite's with-saves test does)
+	OnStop func() *patcher.Checkpoint
 }
 
 type ApplyResult struct {
-	Stage       string // "new", "bowl", "resume", "commit", "ok"
-	Err         error
-	Panic       string
-	Touched     int64
-	Invariant   string
-	Source      *tlc.Container
-	Target      *tlc.Container
+	Stage     string // "new", "bowl", "resume", "commit", "ok"
+	Err       error
+	Panic     string
+	Touched   int64
+	Invariant string
+	Source    *tlc.Container
+	Target    *tlc.Container
+	FirstErr  error // outcome of the cut-short first attempt (FirstAttemptCut)
+	FirstRan  bool
+	Stops     int // stop/resume cycles on the same patcher (OnStop)
 }
 
 // ApplyFresh applies patch with a fresh bowl: old build in oldDir, output into outDir.
@@ -233,8 +243,32 @@ func apply(patch []byte, oldDir, outDir, stageDir string, o ApplyOpts) *ApplyRes
 		if o.Save != nil {
 			p.SetSaveConsumer(o.Save)
 		}
+		if o.FirstAttemptCut > 0 && o.FirstAttemptCut < len(patch) {
+			res.Stage = "first-attempt"
+			src0, _ := NewSource(patch[:o.FirstAttemptCut], nil, o.Yield)
+			if p0, err0 := patcher.New(src0, cons); err0 == nil {
+				if o.Whitelist != nil {
+					p0.SetSourceIndexWhitelist(o.Whitelist)
+				}
+				res.FirstRan = true
+				res.FirstErr = p0.Resume(nil, targetPool, b)
+				if res.FirstErr == nil {
+					// a patch cut short was applied without complaint: nothing to retry
+					res.Stage = "first-attempt-accepted-truncated-patch"
+					return
+				}
+			}
+		}
 		res.Stage = "resume"
 		err = p.Resume(o.Checkpoint, targetPool, b)
+		for o.OnStop != nil && errors.Cause(err) == patcher.ErrStop {
+			c := o.OnStop()
+			if c == nil {
+				break
+			}
+			res.Stops++
+			err = p.Resume(c, targetPool, b)
+		}
 		res.Touched = p.GetTouchedFiles()
 		if err != nil {
 			res.Err = err
@@ -286,9 +320,9 @@ func GenKnobs(rt *rapid.T) OptimizeKnobs {
 }
 
 type OptimizeResult struct {
-	Patch []byte
-	Err   error
-	Panic string
+	Patch    []byte
+	Err      error
+	Panic    string
 	Mappings int
 	// Again runs Optimize once more on the same rediff context with the same pools (nil if the
 	// first run failed)
